@@ -102,7 +102,8 @@ def replay(ctx, obj):
     inc_hash = vlib.tree_hash([os.path.join(vlib.REPO, 'include')])
     stats = base.new_stats()
     print('replaying C15 route scenario %s with %s against %s' % (scn.get('name'), obj.get('compiler', 'g++'), vlib.REPO))
-    base.judge_scenario(ctx, scn, mdl, inc_hash, obj.get('compiler', 'g++'), stats, prefix=PREFIX, verbose=True)
+    base.judge_scenario(ctx, scn, mdl, inc_hash, obj.get('compiler', 'g++'), stats, prefix=PREFIX,
+                        verbose=({'line': obj['line']} if isinstance(obj.get('line'), int) else True))
     print('--- verdict: %d violation(s) of the property on this scenario' % stats['violations'])
     return stats['violations']
 
